@@ -181,7 +181,11 @@ func (c *recursionChecker) checkMixedValueNode(
 
 func (c *recursionChecker) checkType(typeName string, types map[string]schema.Type) error {
 	if !c.visit(typeName) {
-		return c.createError()
+		err := c.createError()
+		// The name was put on the path for the message only. Nobody will leave
+		// this type: the caller may go on with another alternative.
+		c.path = c.path[:len(c.path)-1]
+		return err
 	}
 	defer c.leave(typeName)
 
